@@ -176,6 +176,23 @@ theorem ExecC.assign1 {σ : Store} {x : Var} {v : Value} {t : Trace} {val : Val}
 
 /-! ### static facts about the lowering: the counter only grows, `Move`s name temporaries below it -/
 
+/-- `e.f` for an `e` that is not a plain variable: `access`. -/
+theorem lowerE_field_nonvar (e : Expr) (i c : Nat) (h : ∀ x, e ≠ .var x) :
+    lowerE (.field e i) c = (lowerE e c).bind (fun p =>
+      some (p.1 ++ atvCode p.2.1 p.2.2, .cloneField (atvVar p.2.1 p.2.2) i, atvNext p.2.1 p.2.2)) := by
+  cases e with
+  | var x => exact absurd rfl (h x)
+  | _ => rw [lowerE] <;> first | rfl | exact h | (intro x hx; cases hx)
+
+theorem lowerE_field_inv {e : Expr} {i c : Nat} {code : Code} {v : Value} {c' : Nat} (hv : ¬ ∃ x, e = .var x)
+    (h : lowerE (.field e i) c = some (code, v, c')) :
+    ∃ ce ve c1, lowerE e c = some (ce, ve, c1) ∧ code = ce ++ atvCode ve c1 ∧ v = .cloneField (atvVar ve c1) i
+      ∧ c' = atvNext ve c1 := by
+  rw [lowerE_field_nonvar e i c (fun x hx => hv ⟨x, hx⟩)] at h
+  simp [Option.bind_eq_some_iff] at h
+  obtain ⟨ce, ve, c1, h1, rfl, rfl, rfl⟩ := h
+  exact ⟨ce, ve, c1, h1, rfl, rfl, rfl⟩
+
 /-- A `Move` names a temporary allocated below the counter. -/
 def MoveBound (v : Value) (c : Nat) : Prop :=
   match v with
@@ -301,14 +318,34 @@ theorem lowerE_mono : ∀ (e : Expr) (c : Nat) (code : Code) (v : Value) (c' : N
     have ⟨m1, b1⟩ := lowerE_mono e c ce ve c1 h1
     have ⟨a1, _⟩ := atv_spec ve c1 b1
     exact ⟨by omega, trivial⟩
+  | .record fs, c, code, v, c', h => by
+    simp [lowerE, Option.bind_eq_some_iff] at h
+    obtain ⟨cf, c1, h1, _, rfl, rfl⟩ := h
+    have m1 := lowerFields_mono fs _ _ _ cf c1 h1
+    exact ⟨by omega, ⟨c, rfl, by omega⟩⟩
+  | .field e i, c, code, v, c', h => by
+    by_cases hv : ∃ x, e = .var x
+    · obtain ⟨x, rfl⟩ := hv
+      simp [lowerE] at h; obtain ⟨_, rfl, rfl⟩ := h; simp [MoveBound]
+    · obtain ⟨ce, ve, c1, h1, _, rfl, rfl⟩ := lowerE_field_inv hv h
+      have ⟨m1, b1⟩ := lowerE_mono e c ce ve c1 h1
+      have ⟨a1, _⟩ := atv_spec ve c1 b1
+      exact ⟨by omega, trivial⟩
   | .call .., _, _, _, _, h => by simp [lowerE] at h
   | .mtch .., _, _, _, _, h => by simp [lowerE] at h
   | .for .., _, _, _, _, h => by simp [lowerE] at h
   | .ctor .., _, _, _, _, h => by simp [lowerE] at h
-  | .record .., _, _, _, _, h => by simp [lowerE] at h
-  | .field .., _, _, _, _, h => by simp [lowerE] at h
   | .list .., _, _, _, _, h => by simp [lowerE] at h
   | .fstr .., _, _, _, _, h => by simp [lowerE] at h
+theorem lowerFields_mono : ∀ (es : Exprs) (to : Var) (i c : Nat) (code : Code) (c' : Nat),
+    lowerFields es to i c = some (code, c') → c ≤ c'
+  | .nil, to, i, c, code, c', h => by simp [lowerFields] at h; omega
+  | .cons e es, to, i, c, code, c', h => by
+    simp [lowerFields, Option.bind_eq_some_iff] at h
+    obtain ⟨ce, ve, c1, h1, cs, h2, _⟩ := h
+    have ⟨m1, _⟩ := lowerE_mono e c ce ve c1 h1
+    have m2 := lowerFields_mono es to (i + 1) c1 cs c' h2
+    omega
 theorem lowerArgs_mono : ∀ (es : Exprs) (c : Nat) (code : Code) (tmps : List Var) (c' : Nat),
     lowerArgs es c = some (code, tmps, c') → c ≤ c' ∧ ∀ x ∈ tmps, ∃ k, x = .t k ∧ c ≤ k ∧ k < c'
   | .nil, c, code, tmps, c', h => by simp [lowerArgs] at h; obtain ⟨_, rfl, rfl⟩ := h; simp
@@ -362,6 +399,7 @@ def Value.vars : Value → List Var
   | .callRt _ args => args
   | .disc x => [x]
   | .cloneProj x _ => [x]
+  | .cloneField x _ => [x]
 
 /-- every temporary the operand reads was allocated below the counter -/
 def ValueBound (v : Value) (c : Nat) : Prop := ∀ k, Var.t k ∈ v.vars → k < c
@@ -493,8 +531,19 @@ theorem lowerE_valueBound (e : Expr) (c : Nat) (code : Code) (v : Value) (c' : N
   | mtch s arms => simp [lowerE] at h
   | «for» x l b => simp [lowerE] at h
   | ctor k args => simp [lowerE] at h
-  | record fs => simp [lowerE] at h
-  | field e1 i => simp [lowerE] at h
+  | record fs =>
+    have hm := (lowerE_mono _ c code v c' h).2
+    simp [lowerE, Option.bind_eq_some_iff] at h
+    obtain ⟨_, _, _, _, rfl, _⟩ := h
+    obtain ⟨k', hk', hlt⟩ := hm; cases hk'; simp [Value.vars] at hk; omega
+  | field e1 i =>
+    by_cases hv : ∃ x, e1 = .var x
+    · obtain ⟨x, rfl⟩ := hv
+      simp [lowerE] at h; obtain ⟨_, rfl, rfl⟩ := h; simp [Value.vars] at hk
+    · obtain ⟨ce, ve, c1, h1, _, rfl, rfl⟩ := lowerE_field_inv hv h
+      have ⟨m1, b1⟩ := lowerE_mono e1 c ce ve c1 h1
+      simp [Value.vars] at hk
+      exact atv_bound ve c1 b1 hk.symm
   | list es => simp [lowerE] at h
   | fstr ps => simp [lowerE] at h
 
